@@ -19,17 +19,17 @@ KEYS = ["k1", "k2", "sesame"]
 # scenes that belong to a profile's subject are drawn more often there (half of the scenes of that profile)
 SCENE_BIAS = {
     "kti": ["kick_repeat", "kick_ranks", "topic_lock", "invite_ranks", "invite_ranks", "invite_key", "invite_recreate", "invite_ban", "limit_invite", "halfop_mode"],
-    "mode": ["ranks_ladder", "halfop_mode", "topic_lock", "moderated_prefix", "ban_case", "invite_key", "limit_invite", "kick_ranks"],
+    "mode": ["list_masks", "ranks_ladder", "halfop_mode", "topic_lock", "moderated_prefix", "ban_case", "invite_key", "limit_invite", "kick_ranks"],
     "nick": ["voice_rename", "wallops_rename", "case_twins", "rename_masks", "pre_rename", "ban_case"],
-    "join": ["pre_bans", "pre_bans", "invite_key", "invite_recreate", "invite_ban", "limit_invite", "quota_invisible", "rejoin_list", "ban_case", "case_twins"],
+    "join": ["list_masks", "pre_bans", "pre_bans", "invite_key", "invite_recreate", "invite_ban", "limit_invite", "quota_invisible", "rejoin_list", "ban_case", "case_twins"],
     "member": ["rejoin_list", "kick_repeat", "voice_rename", "kick_ranks", "pre_rename", "ranks_ladder"],
     "chanlife": ["pre_bans", "invite_recreate", "pre_rename", "kick_repeat", "rejoin_list", "kick_ranks"],
-    "secret": ["secret_whois", "quota_invisible", "rename_masks", "case_twins"],
+    "secret": ["list_masks", "secret_whois", "quota_invisible", "rename_masks", "case_twins"],
     "oper": ["oper_cycle", "wallops_rename", "case_twins"],
     "stats": ["oper_cycle", "quota_invisible", "wallops_rename"],
     "endings": ["wallops_rename", "oper_cycle", "invite_recreate", "pre_rename", "late_cap", "late_cap"],
     "msg": ["flood_targets", "voice_rename", "moderated_prefix", "case_twins", "ban_case"],
-    "speak": ["moderated_prefix", "ban_case", "case_twins", "voice_rename", "flood_targets"],
+    "speak": ["list_masks", "moderated_prefix", "ban_case", "case_twins", "voice_rename", "flood_targets"],
     "general": ["kick_repeat", "halfop_mode", "kick_ranks"],
 }
 
@@ -522,7 +522,7 @@ class Gen:
         k = r.choice(["invite_key", "invite_recreate", "invite_ban", "ranks_ladder", "halfop_mode", "quota_invisible",
                       "voice_rename", "wallops_rename", "flood_targets", "limit_invite", "case_twins", "kick_ranks",
                       "secret_whois", "oper_cycle", "moderated_prefix", "ban_case", "rejoin_list", "topic_lock",
-                      "rename_masks", "kick_repeat", "pre_rename", "invite_ranks", "late_cap", "pre_bans"])
+                      "rename_masks", "kick_repeat", "pre_rename", "invite_ranks", "late_cap", "pre_bans", "list_masks"])
         bias = SCENE_BIAS.get(self.profile)
         if bias and r.random() < 0.5:
             k = r.choice(bias)
@@ -677,6 +677,17 @@ class Gen:
             L(o, "MODE %s b" % pch); L(b, "JOIN " + pch + r.choice(["", " k1"])); L(a, "JOIN " + pch + r.choice(["", " k1"]))
             L(b, "PRIVMSG %s :may I" % pch)
             L(o, "MODE %s +e %s" % (pch, m)); L(o, "MODE %s -e %s" % (pch, m)); L(b, "JOIN " + pch)
+        elif k == "list_masks":
+            # list masks are normalised before they are stored, announced, COMPARED and removed: add with one spelling,
+            # remove with the same short spelling / with the completed one / with another short spelling of the same mask
+            L(a, "JOIN " + ch); L(b, "JOIN " + ch)
+            short = r.choice(["guru*", "bob", "x@h.org", "n!u", "a*!b*", "*@10.0.0.2", nb, nb + "@*"])
+            full = short if ("!" in short and "@" in short) else (short + "@*" if "!" in short else
+                                                                  (short.replace("@", "!*@", 1) if "@" in short else short + "!*@*"))
+            for letter in r.sample(["b", "e", "I"], r.choice([1, 2, 3])):
+                L(a, "MODE %s +%s %s" % (ch, letter, short)); L(a, "MODE %s %s" % (ch, letter))
+                L(a, "MODE %s -%s %s" % (ch, letter, r.choice([short, short, full, short.upper()])))
+                L(a, "MODE %s %s" % (ch, letter)); L(b, "PART " + ch); L(a, "MODE %s +i" % ch); L(b, "JOIN " + ch)
         elif k == "late_cap":
             # capability negotiation re-opened AFTER registration and closed again: nothing about the session changes
             L(b, r.choice(["CAP REQ :multi-prefix", "CAP LS 302", "CAP LS", "CAP REQ :foo", "CAP LIST"]))
